@@ -53,3 +53,5 @@ pub use crate::util::simd::escape::find_json_escape;
 // C10 — number printing.
 pub use crate::jq::verif_normalize_extreme_literal_mantissa;
 pub use crate::yaml::{verif_needs_explicit_float_tag, verif_write_i64};
+/// `FORWARD_WALK_CAP` of `text::LineIndex` (C12 generator probes walks around it).
+pub use crate::text::lines::VERIF_FORWARD_WALK_CAP;
